@@ -156,15 +156,15 @@ func (fl *FileList) addSingleFile(info lineInfo) error {
 				return fmt.Errorf("device %s does not exist (source of %s)", source,
 					info.name)
 			}
-			if statbuf.Mode & unix.S_IFCHR > 0 {
+			switch statbuf.Mode & unix.S_IFMT {
+			case unix.S_IFCHR:
 				info.devtype = 'c'
-			} else if statbuf.Mode & unix.S_IFBLK > 0 {
+			case unix.S_IFBLK:
 				info.devtype = 'b'
-			} else {
+			default:
 				return fmt.Errorf("expected %s to be a device node", source)
 			}
-			info.major = uint32(statbuf.Rdev >> 8)
-			info.minor = uint32(statbuf.Rdev & 0xFF)
+			info.major, info.minor = devMajorMinor(uint64(statbuf.Rdev))
 		}
 	default:
 		return fmt.Errorf("assertion error: unknown file type %d for %s", info.ltype,
@@ -173,6 +173,16 @@ func (fl *FileList) addSingleFile(info lineInfo) error {
 
 	fl.entryMap[info.name] = info
 	return nil
+}
+
+
+// Splits a Linux device number into its major and minor parts: the low 12 bits of the major
+// number are in bits 8-19, the low 8 bits of the minor number in bits 0-7, the remaining minor
+// bits in bits 20-43 and the remaining major bits in bits 44-63
+func devMajorMinor(rdev uint64) (major, minor uint32) {
+	major = uint32((rdev >> 8) & 0xfff) | uint32((rdev >> 32) &^ 0xfff)
+	minor = uint32(rdev & 0xff) | uint32((rdev >> 12) &^ 0xff)
+	return
 }
 
 
